@@ -157,4 +157,19 @@ theorem completer_no_panic (fields : Str → List Str) (isCmd : Str → Bool) (m
     completer fields isCmd matchVar fnComplete joinSp line ≠ .panic site :=
   completer_noPanic fields isCmd matchVar fnComplete joinSp line site
 
+/-! ## `-symbolize=` option string -/
+
+/-- Whatever string is given to `-symbolize=` (and whatever `strings.ToLower` does to it), the
+demangler mode that reaches `demanglerModeToOptions` is one of "", "full", "none", "templates": its
+`panic("unknown demanglerMode")` is unreachable from the option string. -/
+theorem symbolize_mode_no_panic (lower : Str → Str) (mode : Str) (site : String) :
+    symbolizeMode lower mode ≠ .panic site :=
+  symbolizeMode_noPanic lower mode site
+
+/-- The `panic` is real for every other mode string. -/
+theorem demanglerMode_unknown_panics (m : Str) (h0 : m ≠ []) (h1 : m ≠ S "templates") (h2 : m ≠ S "full")
+    (h3 : m ≠ S "none") :
+    demanglerModeToOptions m = .panic "symbolizer.go demanglerModeToOptions: unknown demanglerMode" := by
+  simp [demanglerModeToOptions, h0, h1, h2, h3]
+
 end PV.Props.C09
